@@ -59,6 +59,10 @@ type Options struct {
 	FEP bool
 	// BothFlows: a choice point at the start of every execution picks the PP flow or the aggchain-prover flow.
 	BothFlows bool
+	// AttachedChain: a choice point makes the chain one that was attached to the Agglayer with an existing exit tree: the
+	// node certifies from the block after its first L2 bridge (StartL2Block), and the rollup manager reports the exit root
+	// the chain had then; a further choice makes the first query for that exit root fail (a transient L1 RPC fault).
+	AttachedChain bool
 	// DroppedL1ForkPrologue: the L1 info store may have synced a competing fork first — the same L1 transactions with two
 	// leaf-adding ones of one block in the other order (world.SwapVariants), one choice per such variant — and was rewound
 	// from block 1 before it synced the canonical chain.
@@ -123,11 +127,18 @@ func (f *l1Client) HeaderByNumber(_ context.Context, n *big.Int) (*ethtypes.Head
 	return &ethtypes.Header{Number: new(big.Int).SetUint64(num), Difficulty: big.NewInt(0), Extra: []byte("unsynced")}, nil
 }
 
-type rollupData struct{}
+// rollupData is what the rollup manager on L1 answers for the chain's data at its creation block.
+type rollupData struct {
+	ler       common.Hash // the chain's local exit root when it was attached (0x0: it had no exits)
+	failsLeft *int        // > 0: the next queries fail (a transient L1 RPC fault)
+}
 
-// GetRollupData: the rollup had no exits when it was created (LastLocalExitRoot = 0x0).
-func (rollupData) GetRollupData(*big.Int) (polygonrollupmanager.PolygonRollupManagerRollupDataReturn, error) {
-	return polygonrollupmanager.PolygonRollupManagerRollupDataReturn{}, nil
+func (r rollupData) GetRollupData(*big.Int) (polygonrollupmanager.PolygonRollupManagerRollupDataReturn, error) {
+	if r.failsLeft != nil && *r.failsLeft > 0 {
+		*r.failsLeft--
+		return polygonrollupmanager.PolygonRollupManagerRollupDataReturn{}, errors.New("verif: transient L1 RPC failure")
+	}
+	return polygonrollupmanager.PolygonRollupManagerRollupDataReturn{LastLocalExitRoot: r.ler}, nil
 }
 
 type ecdsaSigner struct{ key *ecdsa.PrivateKey }
@@ -210,6 +221,8 @@ type exec struct {
 	opt     Options
 	oracle  Oracle
 	seq     uint64
+	rollup  rollupData
+	startL2 uint64 // the block before the first one the node certifies (StartL2Block)
 }
 
 // install makes the real storage hold exactly the given chain, through the real storage API: each
@@ -246,14 +259,14 @@ func (x *exec) flow(maxSize uint) types.AggsenderFlow {
 	}
 	// exactly the wiring of flows.NewFlow for PessimisticProofMode
 	logger := kit.Logger()
-	lerQuerier, err := query.NewLERDataQuerier(common.Address{}, 0, rollupData{})
+	lerQuerier, err := query.NewLERDataQuerier(common.Address{}, 0, x.rollup)
 	if err != nil {
 		panic(err)
 	}
 	l2BridgeQuerier := query.NewBridgeDataQuerier(logger, x.st.L2Bridge, 0)
 	l1InfoTreeQuerier := query.NewL1InfoTreeDataQuerier(x.l1, x.st.L1Info)
 	base := flows.NewBaseFlow(logger, l2BridgeQuerier, x.storage, l1InfoTreeQuerier, lerQuerier,
-		flows.NewBaseFlowConfig(maxSize, 0, false))
+		flows.NewBaseFlowConfig(maxSize, x.startL2, false))
 	f := flows.NewPPFlow(logger, base, x.storage, l1InfoTreeQuerier, l2BridgeQuerier, &ecdsaSigner{signerKey}, false, 0)
 	x.flows[maxSize] = f
 	return f
@@ -288,14 +301,14 @@ func (optimisticOff) IsOptimisticModeOn() (bool, error) { return false, nil }
 // fepFlow: the wiring of flows.NewFlow for AggchainProofMode around the same base flow and queriers.
 func (x *exec) fepFlow(maxSize uint) types.AggsenderFlow {
 	logger := kit.Logger()
-	lerQuerier, err := query.NewLERDataQuerier(common.Address{}, 0, rollupData{})
+	lerQuerier, err := query.NewLERDataQuerier(common.Address{}, 0, x.rollup)
 	if err != nil {
 		panic(err)
 	}
 	l2BridgeQuerier := query.NewBridgeDataQuerier(logger, x.st.L2Bridge, 0)
 	l1InfoTreeQuerier := query.NewL1InfoTreeDataQuerier(x.l1, x.st.L1Info)
 	base := flows.NewBaseFlow(logger, l2BridgeQuerier, x.storage, l1InfoTreeQuerier, lerQuerier,
-		flows.NewBaseFlowConfig(maxSize, 0, false))
+		flows.NewBaseFlowConfig(maxSize, x.startL2, false))
 	f := flows.NewAggchainProverFlow(logger, flows.NewAggchainProverFlowConfig(0), base, standInProver{}, x.storage, l1InfoTreeQuerier,
 		l2BridgeQuerier, query.NewGERDataQuerier(l1InfoTreeQuerier, noInjectedGERs{}), x.l1, &ecdsaSigner{signerKey}, optimisticOff{}, nil)
 	x.flows[maxSize] = f
@@ -433,6 +446,22 @@ func Run(c *mc.Ctx, u mc.Unit, opt Options, oracle Oracle) {
 	x := &exec{c: c, ctx: ctx, w: w, st: st, storage: storage, l1: &l1Client{w: w}, flows: map[uint]types.AggsenderFlow{},
 		opt: opt, oracle: oracle}
 
+	if opt.AttachedChain && len(w.L2Deps) > 0 && c.Bool("chain-attached-with-an-existing-exit-tree") {
+		b0 := w.L2Deps[0].Block
+		n := uint32(0)
+		for _, d := range w.L2Deps {
+			if d.Block <= b0 {
+				n++
+			}
+		}
+		x.startL2, x.rollup.ler = b0, w.ExitRoot(world.NetL2, n)
+		c.Witness("chains_attached_with_an_existing_exit_tree")
+		if c.Bool("first-query-of-the-starting-exit-root-fails") {
+			one := 1
+			x.rollup.failsLeft = &one
+			c.Witness("starting_exit_root_queries_that_fail_once")
+		}
+	}
 	lastL1 := uint64(len(w.L1Blocks))
 	states := []state{{}}
 	seen := map[string]bool{"none": true}
@@ -524,7 +553,9 @@ func Run(c *mc.Ctx, u mc.Unit, opt Options, oracle Oracle) {
 	if opt.L1OrphanEpilogue {
 		built += x.l1OrphanEpilogue(p, states, lastL1)
 	}
-	if opt.L2ReorgEpilogue {
+	if opt.L2ReorgEpilogue && x.startL2 == 0 {
+		// (not for an attached chain: the epilogue replaces the first L2 bridge, which is then part of the exit tree the
+		// rollup manager recorded at attachment time and cannot be reorged away any more)
 		built += x.l2ReorgEpilogue(p, states, lastL1)
 	}
 	if built > 0 {
